@@ -207,10 +207,14 @@ def _run_history(root, L, rng, namer, opts, meta, cli=False):
         kw = dict(hashes=list(hashes), profile=profile)
         if opts.get('sort') is not None:
             kw['sort'] = opts['sort']
+        # the compression options are given to the loader, or to save_manifests(), or the watermark to the
+        # loader and the format to the call: all the same
+        how = rng.choice(['ctor', 'ctor', 'call', 'split'])
+        skw_c = {}
         if opts.get('wm') is not None:
-            kw['compress_watermark'] = opts['wm']
+            (skw_c if how == 'call' else kw)['compress_watermark'] = opts['wm']
         if opts.get('fmt'):
-            kw['compress_format'] = opts['fmt']
+            (kw if how == 'ctor' else skw_c)['compress_format'] = opts['fmt']
         obs, ld = gem.call(gem.loader, top, **kw)
         if obs['end'] != 'ok':
             ev.update(end=obs['end'], exc=obs['exc'], stage='load')
@@ -234,7 +238,7 @@ def _run_history(root, L, rng, namer, opts, meta, cli=False):
             if obs['end'] != 'ok':
                 ev.update(end=obs['end'], exc=obs['exc'], stage='update')
             else:
-                skw = {}
+                skw = dict(skw_c)
                 if opts.get('force'):
                     skw['force'] = True
                 obs, _ = gem.call(ld.save_manifests, **skw)
